@@ -28,6 +28,7 @@ from .parse import (
     StatusAtt,
 )
 from .throttle import check_allow, login_failed
+from .utils import oneline
 
 # Allow circular imports for annotations
 #
@@ -272,7 +273,7 @@ class BaseClientHandler:
             )
             if self.server and imap_command.command:
                 self.server.num_failed_commands[imap_command.command] += 1
-            result = f"{imap_command.tag} NO {e}\r\n"
+            result = f"{imap_command.tag} NO {oneline(e)}\r\n"
             await self.client.push(result)
             return
         except Bad as e:
@@ -281,7 +282,7 @@ class BaseClientHandler:
             )
             if self.server and imap_command.command:
                 self.server.num_failed_commands[imap_command.command] += 1
-            result = f"{imap_command.tag} BAD {e}\r\n"
+            result = f"{imap_command.tag} BAD {oneline(e)}\r\n"
             await self.client.push(result)
             return
         except TimeoutError:
@@ -327,7 +328,9 @@ class BaseClientHandler:
 
             if self.server and imap_command.command:
                 self.server.num_failed_commands[imap_command.command] += 1
-            result = f"{imap_command.tag} BAD Unhandled exception: {e}\r\n"
+            result = (
+                f"{imap_command.tag} BAD Unhandled exception: {oneline(e)}\r\n"
+            )
             try:
                 await self.client.push(result)
             except Exception:
